@@ -9,6 +9,7 @@ A case is {"text": str, "limit": 80|128, "ops": [op, ...]}.  Operations (all thr
   ["reorder", perm]                         problem.cells = [cells[j] for j in perm]
   ["imp", i, particle, x] ["imp_all", i, x] ["vol", i, x] ["del_vol", i] ["u", i, number] ["fill", i, number|None]
   ["lat", i, 1|2|None] ["not_truncated", i, bool] ["vol_calc", bool]
+  ["observe", i]                            str / repr / format_for_mcnp_input of the cell and its modifiers (no effect expected)
   ["write"]                                 write_to_file; the observation that is judged
 Cells are addressed by their position in problem.cells at the time of the operation.
 """
@@ -173,6 +174,11 @@ def apply_op(p, op):
         cells[op[1]].not_truncated = bool(op[2])
     elif name == "vol_calc":
         p.cells.allow_mcnp_volume_calc = bool(op[1])
+    elif name == "observe":
+        # observations through the public API (formatting mutates the syntax trees, never what is reported)
+        c = cells[op[1]]
+        str(c), repr(c), str(c.importance), repr(c.fill), str(c.universe)
+        c.format_for_mcnp_input(p.mcnp_version)
     else:
         raise AssertionError("unknown op " + name)
 
